@@ -231,6 +231,30 @@ def h_sctp_data(ctx, k, ppid, same_stream, role):
         ctx.observe("log", len(log))
 
 
+def h_sctp_two_data(ctx, role):
+    """Structure-aware: two well-formed DATA chunks in two datagrams, both TSNs fully symbolic
+    (duplicates, far-ahead and half-the-space-away TSNs are all in range)."""
+    with Env(crc=(lambda d: 0) if sx.active() else None) as env:
+        t, ch = _mk_transport(env, "established_server" if role == "server" else "established_client")
+        cid = 0 if t.is_server else 1
+        for i in range(2):
+            c = sctp.DataChunk(flags=ctx.int("flags%d" % i, 0, 7))
+            c.tsn = ctx.int("tsn%d" % i, 0, 0xFFFFFFFF)
+            c.stream_id = cid
+            c.stream_seq = ctx.int("ssn%d" % i, 0, 1)
+            c.protocol = 53
+            c.user_data = b"z"
+            data = sctp.serialize_packet(5000, 5000, 0x11223344, c)
+            if not sx.active():
+                data = _crc_patch(data)
+            with sx.timelimit(ctx, 2.0, "hang:work-out-of-proportion"):
+                sx.run(t._handle_data(data))
+                env.drain()
+        ctx.reach("two-data-handled")
+        ctx.check(t._association_state == State.ESTABLISHED, "association-still-established")
+        ctx.observe("cum", t._last_received_tsn)
+
+
 def h_sctp_sack_gaps(ctx, ngaps):
     """Long-length effect outside the byte bound: a SACK with many maximal gap blocks."""
     with Env(crc=(lambda d: 0) if sx.active() else None) as env:
@@ -604,6 +628,7 @@ HARNESSES = {
         opts=NC_OPTS,
         twin="data-handled",
     ),
+    "sctp-two-data": Harness("sctp-two-data", h_sctp_two_data, lambda tier: [{"role": r} for r in ("client", "server")], style="NC (structure-aware)", bounds="two DATA chunks with independent symbolic 32-bit TSNs, flags 0..7, stream sequence 0..1", encoded=ENC_SCTP, stubs=STUBS, opts=NC_OPTS, twin="two-data-handled"),
     "sctp-sack-gaps": Harness("sctp-sack-gaps", h_sctp_sack_gaps, lambda tier: [{"ngaps": g} for g in ((1, 2) if tier == "quick" else (1, 2, 8, 100))], style="NC (targeted, concrete large count)", bounds="SACK with up to 100 maximal gap blocks (0..65535), first block symbolic", encoded=ENC_SCTP, stubs=STUBS, opts=dict(NC_OPTS, path_timeout_s=20), twin="sack-handled"),
     "receiver": Harness("receiver", h_receiver, _recv_jobs, style="NC", bounds="real RTCRtpReceiver (video; VP8, H264 and their RTX), payload 0..8 (quick) / 0..12 symbolic bytes, timestamp/marker/arrival symbolic, payload type / sequence number / SSRC from a fixed set, fresh or one-packet-warm receiver", encoded=ENC_RTP, stubs=STUBS, opts=NC_OPTS, twin="rtp-packet-handled"),
     "dtls-dispatch": Harness("dtls-dispatch", h_dtls_dispatch, _dispatch_jobs, style="NC", bounds="RTP 12..20 (quick) / 2..28 B, RTCP 8..32 / 4..36 B; first two bytes fixed per job", encoded=ENC_RTP, opts=NC_OPTS, twin="dispatched"),
